@@ -2,7 +2,12 @@ use super::*;
 use crate::{base::SentinelRule, logging, utils, Error, Result};
 use lazy_static::lazy_static;
 use std::collections::{HashMap, HashSet};
+#[cfg(not(flea1lt_sentinel_rust_verif))]
 use std::sync::{Arc, Mutex, RwLock};
+#[cfg(flea1lt_sentinel_rust_verif)]
+use std::sync::{Arc};
+#[cfg(flea1lt_sentinel_rust_verif)]
+use crate::verif::sync::{Mutex, RwLock};
 
 // todo: this module is redundant as the flow control rule managers has been implemented in the `crate::core::flow`
 
